@@ -260,13 +260,14 @@ func C14(ctx *core.Ctx) {
 			}
 		}
 		fctx := sr.Params[1]
+		opA, fctxA := valueAliases(op), valueAliases(fctx) // the same objects as seen from extracted helpers
 		isHdr := func(in ssa.Instruction) bool {
 			c, ok := ssax.AsCall(in)
 			if !ok {
 				return false
 			}
 			p, o := protoOp(c)
-			return o == "WriteResponseHeader" && p == ssa.Value(op) && ssax.Strip(c.Common.Args[1]) == ssa.Value(fctx)
+			return o == "WriteResponseHeader" && opA[p] && fctxA[ssax.Strip(c.Common.Args[1])]
 		}
 		isBegin := func(in ssa.Instruction) bool {
 			c, ok := ssax.AsCall(in)
@@ -274,7 +275,7 @@ func C14(ctx *core.Ctx) {
 				return false
 			}
 			p, o := protoOp(c)
-			if o != "WriteMessageBegin" || p != ssa.Value(op) {
+			if o != "WriteMessageBegin" || !opA[p] {
 				return false
 			}
 			k, isC := ssax.ConstInt(c.Common.Args[2])
@@ -293,7 +294,7 @@ func C14(ctx *core.Ctx) {
 		}
 		checkSequence(ctx, r, "C14.R3", ssax.Name(sr)+" › reply message", sr, nil, steps, goal)
 	}
-	if se := r.Fn("C14.R3", "(*FBaseProcessorFunction).sendError"); se != nil {
+	if se := r.roleSendError(); se != nil {
 		var op *ssa.Parameter
 		var fctx *ssa.Parameter
 		for _, p := range se.Params {
